@@ -97,14 +97,18 @@ Definition assoc_of (events : list event) (f : pset) (i : Z) : pset :=
   fold_left (fun s e => if existsb (node_eqb (f, i)) (ev_nodes e) then set_add ncmp (ev_plat e) s else s)
             events [].
 
-(* a parsed file: its path and, per CodeNode in walk order, the physical lines *)
-Record pfile := { pf_path : pset; pf_nodes : list (list Z) }.
+(* a member of the code base: the name under which CodeBase yields it, the real
+   path it resolves to (the same for a regular file, the target for a symbolic
+   link; trees and association maps are keyed by the real path), and, per
+   CodeNode of that tree in walk order, the physical lines *)
+Record pfile := { pf_path : pset; pf_real : pset; pf_nodes : list (list Z) }.
+Definition is_link (f : pfile) : bool := negb (peqb (pf_path f) (pf_real f)).
 
 Fixpoint number {A} (i : Z) (l : list A) : list (Z * A) :=
   match l with [] => [] | x :: r => (i, x) :: number (i + 1) r end.
 
 Definition file_contribs (events : list event) (f : pfile) : list (pset * Z) :=
-  map (fun iv => (assoc_of events (pf_path f) (fst iv), Z.of_nat (List.length (snd iv))))
+  map (fun iv => (assoc_of events (pf_real f) (fst iv), Z.of_nat (List.length (snd iv))))
       (number 0 (pf_nodes f)).
 
 (* CodeBase.__iter__ after the repair: sorted(rglob) *)
@@ -112,9 +116,10 @@ Definition iter_codebase (enumeration : list pfile) : list pfile := sort_by pcmp
 (* before the repair: the enumeration order itself *)
 Definition iter_codebase_old (enumeration : list pfile) : list pfile := enumeration.
 
-(* ParserState.get_setmap (no member is a symlink) *)
+(* ParserState.get_setmap: a symbolic link whose target is a member is skipped
+   (every link of a case points to a member) *)
 Definition get_setmap (events : list event) (files : list pfile) : setmap :=
-  sm_build (flat_map (file_contribs events) files).
+  sm_build (flat_map (file_contribs events) (filter (fun f => negb (is_link f)) files)).
 
 (* ---------- report.py ---------- *)
 (* sorted(extract_platforms(setmap)) *)
@@ -147,7 +152,7 @@ Fixpoint pairs {A} (l : list A) : list (A * A) :=
 (* ---------- codebasin.coverage ---------- *)
 (* one record per member, in iteration order: (path, used lines, unused lines) *)
 Definition cov_record (events : list event) (f : pfile) : pset * (list Z * list Z) :=
-  let tagged := map (fun iv => (match assoc_of events (pf_path f) (fst iv) with [] => false | _ => true end, snd iv))
+  let tagged := map (fun iv => (match assoc_of events (pf_real f) (fst iv) with [] => false | _ => true end, snd iv))
                     (number 0 (pf_nodes f)) in
   (pf_path f, (flat_map snd (filter fst tagged), flat_map snd (filter (fun t => negb (fst t)) tagged))).
 Definition coverage_export (events : list event) (enumeration : list pfile) :=
@@ -183,9 +188,13 @@ Definition dec_event (d : data) : option event :=
   | None => None
   end.
 Definition dec_pfile (d : data) : option pfile :=
-  match as_pair dec_path (as_list_of (as_list_of as_int)) d with
-  | Some (p, ns) => Some {| pf_path := p; pf_nodes := ns |}
-  | None => None
+  match d with
+  | DList [p; r; ns] =>
+      match dec_path p, dec_path r, as_list_of (as_list_of as_int) ns with
+      | Some p, Some r, Some ns => Some {| pf_path := p; pf_real := r; pf_nodes := ns |}
+      | _, _, _ => None
+      end
+  | _ => None
   end.
 
 Definition enc_name (n : name) : data := DStr (string_of_name n).
